@@ -73,6 +73,11 @@ impl Mesh {
             .project_local_point_and_get_location_with_max_dist(&point, self.is_solid, max_dist);
         if let Some((prj, (id, loc))) = result {
             let local = point - prj.point;
+            // A point lying on the surface has no offset direction: the projection can differ from the
+            // point by rounding only, and the direction of that difference is meaningless
+            if local.norm() <= 1.0e-12 * (1.0 + point.coords.norm()) {
+                return Some((prj, id, loc));
+            }
             let triangle = self.shape.triangle(id);
             if let Some(normal) = triangle.normal() {
                 let angle = normal.angle(&local).abs();
